@@ -180,6 +180,14 @@ struct Explorer {
             return false;
         }
         if (san_hits() != san0) { cx.fail(lim.prop_ub, sys.subject(a), "sanitizer-report", "ASan/UBSan reported during this valid call (see job log)"); }
+        // canary behind the object: State types keep the implementation object at the start of `buf`, followed by
+        // poison bytes; a write past the object's own storage that stays inside the State is invisible to ASan
+        if (!tail_clean(*s) || (p && !tail_clean(*p))) {
+            cx.fail(lim.prop_ub, sys.subject(a), "object-tail-overwritten", "the bytes right behind the object's own storage were modified by this valid call");
+            (void)s.release();
+            (void)p.release();
+            return false;
+        }
         if (cx.failed) { return false; }
         std::string k;
         Trap tk = guarded([&] {
@@ -213,6 +221,28 @@ struct Explorer {
         retire(s, cx, a);
         if (p) { retire(p, cx, a); }
         return added;
+    }
+
+    // true if the poison bytes between the end of the implementation object and the end of State::buf are untouched
+    // (all equal to one of the fill bytes the harnesses use); States without a `buf`/`v` pair are not checked
+    template <typename St>
+    static bool tail_clean(St const& st)
+    {
+        if constexpr (requires { sizeof(st.buf); *st.v; }) {
+            using Obj = std::remove_cvref_t<decltype(*st.v)>;
+            if constexpr (sizeof(st.buf) > sizeof(Obj)) {
+                auto const* base = reinterpret_cast<unsigned char const*>(st.buf);
+                if (reinterpret_cast<unsigned char const*>(st.v) != base) { return true; }
+                auto const* t = base + sizeof(Obj);
+                std::size_t const n = sizeof(st.buf) - sizeof(Obj);
+                unsigned char const f = t[0];
+                if (f != 0xAA && f != 0x00 && f != 0xFF && f != 0x5A && f != 0x7F) { return false; }
+                for (std::size_t i = 1; i < n; ++i) {
+                    if (t[i] != f) { return false; }
+                }
+            }
+        }
+        return true;
     }
 
     // end of life of a state object: Sys may destroy the implementation object explicitly
